@@ -59,6 +59,43 @@ func ruleG1(c *Ctx, pkgs map[string]bool, floor int) {
 				}
 			}
 			if !ok {
+				// go x.method(…) / go f(…) with a function of the module: its body is the goroutine
+				if g := p.FuncOf(calleeFunc(info, gs.Call)); g != nil && g.Decl != nil {
+					calleeGroup, adds := "", false
+					for _, st := range g.Body.List {
+						if ds, isDefer := st.(*ast.DeferStmt); isDefer && isWGMethod(callName(g.Info(), ds.Call), "Done") {
+							calleeGroup = exprStr(recvExpr(ds.Call))
+						}
+						if es, isExpr := st.(*ast.ExprStmt); isExpr {
+							if call, isCall := es.X.(*ast.CallExpr); isCall && (isWGMethod(callName(g.Info(), call), "Add") || isWGMethod(callName(g.Info(), call), "Inc")) {
+								adds = true
+							}
+						}
+					}
+					if calleeGroup != "" {
+						n++
+						at := fmt.Sprintf("%s/go#%d", f.Name, n)
+						if adds {
+							R.Fail("G1", at, p.Position(gs.Pos()), fmt.Sprintf("the goroutine body %s counts itself (%s.Add inside the goroutine, deferred Done): the launcher's Wait can see a zero counter before the goroutine has run its Add and return while sends are still pending", g.Name, calleeGroup))
+						} else {
+							// the launcher must Add before the go statement
+							added := false
+							if blk, isBlk := p.Parent(gs).(*ast.BlockStmt); isBlk {
+								for _, st := range blk.List {
+									if st.Pos() >= gs.Pos() {
+										break
+									}
+									if es, isExpr := st.(*ast.ExprStmt); isExpr {
+										if call, isCall := es.X.(*ast.CallExpr); isCall && (isWGMethod(callName(info, call), "Add") || isWGMethod(callName(info, call), "Inc")) {
+											added = true
+										}
+									}
+								}
+							}
+							R.Check(added, "G1", at, p.Position(gs.Pos()), "Add precedes go "+g.Name, fmt.Sprintf("go %s defers Done on %s but no Add precedes the go statement", g.Name, calleeGroup))
+						}
+					}
+				}
 				return true
 			}
 			// deferred Done at the top of the goroutine
